@@ -15,7 +15,7 @@
 (* character: internal/ccdirectives.go cacheControlValue (join the lines), *)
 (* internal/helpers.go TrimmedCSVSeq (split at commas outside quoted       *)
 (* strings, honouring quoted-pairs, trim), directivesSeq2 (cut at "=",     *)
-(* lower-case the name, later occurrences win) and ParseQuotedString for   *)
+(* lower-case the name, the first occurrence wins) and ParseQuotedString for   *)
 (* the arguments.                                                          *)
 (*                                                                         *)
 (* TLC enumerates every (directive list, recipe) and checks that the       *)
@@ -95,6 +95,9 @@ DirLists ==
      [kind |-> "resp", dirs |-> <<D("no-cache", "X-Secret"), D("max-age", "30")>>, abs |-> RespAbs(30, -1, -1, <<"no-cache">>, 1)],
      \* said twice, once with field names: the unqualified form covers the whole response
      [kind |-> "resp", dirs |-> <<D("no-cache", ""), D("no-cache", "X-Secret"), D("max-age", "30")>>, abs |-> RespAbs(30, -1, -1, <<"no-cache">>, 0)],
+     \* a directive given twice with different values: the first occurrence is used (RFC 9111 4.2.1; the other reading,
+     \* "considered stale", says the same after max-age=0); the order of such a list is part of its meaning
+     [kind |-> "resp", dirs |-> <<D("max-age", "0"), D("max-age", "30")>>, abs |-> RespAbs(0, -1, -1, <<>>, 0)],
      [kind |-> "resp", dirs |-> <<D("max-age", "5"), D("stale-while-revalidate", "30")>>, abs |-> RespAbs(5, 30, -1, <<>>, 0)],
      [kind |-> "resp", dirs |-> <<D("max-age", "5"), D("stale-if-error", "30")>>, abs |-> RespAbs(5, -1, 30, <<>>, 0)],
      [kind |-> "resp", dirs |-> <<D("public", ""), D("max-age", "5"), D("must-revalidate", ""), D("stale-if-error", "30")>>,
@@ -220,20 +223,21 @@ Unquote(s) ==
   IF "no_quoted_args" \in Defects THEN s
   ELSE IF Len(s) >= 2 /\ s[1] = DQ /\ s[Len(s)] = DQ THEN Unq(SubSeq(s, 2, Len(s) - 1), <<>>) ELSE s
 
-\* directivesSeq2 + maps.Collect: name -> raw argument; later occurrences win
+\* directivesSeq2 + maps.Collect: name -> raw argument; the first occurrence wins (the pinned tree: the last, Defects "last_wins")
 KeyOf(part) == LET i == CutAt(part)  k == IF i = 0 THEN Trim(part) ELSE SubSeq(part, 1, i - 1) IN
                IF "case_sensitive" \in Defects THEN k ELSE [j \in 1..Len(k) |-> Low(k[j])]
 ValOf(part) == LET i == CutAt(part) IN IF i = 0 THEN <<>> ELSE Trim(SubSeq(part, i + 1, Len(part)))
-\* parseDirectives: later occurrences win - except that a no-cache without argument is not narrowed by another
+\* parseDirectives: the first occurrence wins - except that a no-cache without argument is not narrowed by another
 \* occurrence that names fields (the pinned tree let the last one win there too)
 CodeParse(lines) ==
   LET parts == Csv(Value(lines), <<>>, FALSE, FALSE, <<>>)
       keys  == {KeyOf(parts[i]) : i \in 1..Len(parts)} \ {<<>>}
-  IN [k \in keys |-> LET last == CHOOSE i \in 1..Len(parts) : KeyOf(parts[i]) = k /\ \A j \in (i + 1)..Len(parts) : KeyOf(parts[j]) # k
+  IN [k \in keys |-> LET last  == CHOOSE i \in 1..Len(parts) : KeyOf(parts[i]) = k /\ \A j \in (i + 1)..Len(parts) : KeyOf(parts[j]) # k
+                         first == CHOOSE i \in 1..Len(parts) : KeyOf(parts[i]) = k /\ \A j \in 1..(i - 1) : KeyOf(parts[j]) # k
                      IN IF k = NameOf("no-cache") /\ "last_wins" \notin Defects
                            /\ \E i \in 1..Len(parts) : KeyOf(parts[i]) = k /\ ValOf(parts[i]) = <<>>
                           THEN <<>>
-                        ELSE Unquote(ValOf(parts[last]))]
+                        ELSE Unquote(ValOf(parts[IF "last_wins" \in Defects THEN last ELSE first]))]
 
 (***************************************************************************)
 (* what the text has to mean                                               *)
@@ -244,7 +248,9 @@ Known == {NameOf(n) : n \in {"max-age", "no-cache", "no-store", "must-revalidate
 \* a directive given twice: the occurrence without argument decides (that only arises for no-cache here)
 MeaningOf(dirs) == [k \in {NameOf(dirs[i].n) : i \in 1..Len(dirs)} |->
                       IF \E i \in 1..Len(dirs) : NameOf(dirs[i].n) = k /\ dirs[i].a = "" THEN <<>>
-                      ELSE LET i == CHOOSE i \in 1..Len(dirs) : NameOf(dirs[i].n) = k IN ArgOf(dirs[i].a)]
+                      ELSE LET i == CHOOSE i \in 1..Len(dirs) : NameOf(dirs[i].n) = k /\ \A j \in 1..(i - 1) : NameOf(dirs[j].n) # k
+                           IN ArgOf(dirs[i].a)]
+HasDup(dirs) == \E i, j \in 1..Len(dirs) : i # j /\ dirs[i].n = dirs[j].n /\ dirs[i].a # "" /\ dirs[j].a # ""
 Restrict(f, S) == [k \in DOMAIN f \cap S |-> f[k]]
 
 VARIABLES dl, rc, st
@@ -268,7 +274,7 @@ Pick1 ==
        /\ rc' = [Canonical EXCEPT !.cs = c, !.cstep = cstep, !.q = q, !.qstep = qstep, !.ows = o, !.extpos = xp]
 Pick2 ==
   /\ st = "half"
-  /\ \E e \in EmpSet, sp \in 0..2, od \in OrdSet, x \in ExtSet :
+  /\ \E e \in EmpSet, sp \in 0..2, od \in (IF HasDup(DirLists[dl].dirs) THEN {0} ELSE OrdSet), x \in ExtSet :
        LET r == [rc EXCEPT !.emp = e, !.split = sp, !.ord = od, !.ext = x] IN
        /\ rc' = r /\ st' = "text" /\ UNCHANGED dl
        /\ (Export => PrintT(ToJson([dl |-> dl, kind |-> DirLists[dl].kind, abs |-> DirLists[dl].abs, rc |-> r,
